@@ -254,6 +254,8 @@ impl Totality {
                             "bitflip" => "digit_flip",
                             "swap" => "swap",
                             "insert" => "insert",
+                            "caseflip" => "letter_case_flip",
+                            "dup_element" => "duplicated_list_element",
                             _ => "duplicate_run",
                         };
                         *faults.entry(k).or_insert(0) += 1;
@@ -851,6 +853,8 @@ impl Tamper {
                 "bitflip" => "digit_flip",
                 "swap" => "swap_adjacent",
                 "insert" => "insert_byte",
+                "caseflip" => "letter_case_flip",
+                "dup_element" => "duplicated_list_element",
                 _ => "duplicate_block",
             };
             *faults.entry(k).or_insert(0) += 1;
@@ -884,6 +888,71 @@ impl Tamper {
             );
             let v = judge(&orig_level, &orig_seq, &m, must_fail, &mut st);
             push(&mut out, v);
+        }
+        // object-level tampering: the deserialized package is validated once (as a careful
+        // caller would), then its content is edited in memory and restored from the object
+        if let Ok(Ok(pkg)) = guarded(|| PriceLevelSnapshotPackage::from_json(text)) {
+            let _ = guarded(|| pkg.validate());
+            let n = pkg.snapshot.orders.len();
+            let mut edits: Vec<(&'static str, PriceLevelSnapshotPackage)> = vec![];
+            let mut e = pkg.clone();
+            e.snapshot.price = e.snapshot.price.wrapping_add(1);
+            edits.push(("object_price", e));
+            let mut e = pkg.clone();
+            e.snapshot.visible_quantity = e.snapshot.visible_quantity.wrapping_add(1);
+            edits.push(("object_aggregate", e));
+            let mut e = pkg.clone();
+            e.snapshot.order_count = e.snapshot.order_count.wrapping_add(1);
+            edits.push(("object_aggregate", e));
+            let mut e = pkg.clone();
+            e.version = e.version.wrapping_add(1);
+            edits.push(("object_version", e));
+            if n >= 1 {
+                let mut e = pkg.clone();
+                e.snapshot.orders.pop();
+                edits.push(("object_drop_order", e));
+                let mut e = pkg.clone();
+                let first = e.snapshot.orders[0].clone();
+                e.snapshot.orders.push(first);
+                edits.push(("object_duplicate_order", e));
+                let mut e = pkg.clone();
+                let mut o = OrderSpec::of(&e.snapshot.orders[0]);
+                o.vis = o.vis.wrapping_add(1);
+                e.snapshot.orders[0] = std::sync::Arc::new(o.to_lib());
+                edits.push(("object_order_field", e));
+            }
+            if n >= 2 {
+                let mut e = pkg.clone();
+                e.snapshot.orders.reverse();
+                if SnapSpec::of(&e.snapshot) != SnapSpec::of(&pkg.snapshot) {
+                    edits.push(("object_reorder", e));
+                }
+            }
+            for (k, e) in edits {
+                out.inner_evals += 1;
+                *faults.entry(k).or_insert(0) += 1;
+                let r = guarded(|| {
+                    let v = e.validate().is_ok();
+                    let l = PriceLevel::from_snapshot_package(e.clone()).is_ok();
+                    (v, l)
+                });
+                let bad = match r {
+                    Ok((false, false)) => None,
+                    Ok((v, l)) => Some(format!(
+                        "after {k} on a package object that had validated before: validate() ok={v}, from_snapshot_package ok={l}"
+                    )),
+                    Err(f) => Some(format!("{k}: {}", f.brief())),
+                };
+                if let Some(d) = bad {
+                    push(
+                        &mut out,
+                        Some((
+                            "C09/tampered-object-accepted".to_string(),
+                            format!("{d}; package text {:?}", clip(text)),
+                        )),
+                    );
+                }
+            }
         }
         // sampled pairs of single faults
         if !singles.is_empty() {
